@@ -867,8 +867,11 @@ class TransactionBuilder:
             updated_amount.coin = required_lovelace
 
             if len(updated_amount.to_cbor()) > max_val_size:
-                output.amount = old_amount
-                break
+                # A single asset does not fit into a value of max_val_size bytes. Giving up here would
+                # silently drop this and all remaining policies from the change.
+                raise InvalidTransactionException(
+                    f"An asset does not fit into a value of at most {max_val_size} bytes."
+                )
 
         multi_asset_arr.append(output.amount.multi_asset)
         # Remove records where MultiAsset is null due to overflow of adding
